@@ -67,8 +67,8 @@ def EXACT(
 def FIND(
         find_text: func_xltypes.XlText,
         within_text: func_xltypes.XlText,
-        start_num: func_xltypes.Number = 1,
-) -> func_xltypes.Number:
+        start_num: func_xltypes.XlNumber = 1,
+) -> func_xltypes.XlNumber:
     """FIND and FINDB locate one text string within a second text string,
     and return the number of the starting position of the first text string
     from the first character of the second text string.
@@ -146,8 +146,8 @@ def LOWER(
 @xl.validate_args
 def MID(
         text: func_xltypes.XlText,
-        start_num: func_xltypes.Number,
-        num_chars: func_xltypes.Number
+        start_num: func_xltypes.XlNumber,
+        num_chars: func_xltypes.XlNumber
 ) -> func_xltypes.XlText:
     """Returns a specific number of characters from a text string, starting
     at the position you specify, based on the number of characters you specify.
